@@ -91,7 +91,7 @@ theorem opGetNextToPython_np (p : Pdu) (it : Option GetIter) :
     · rfl
     · rfl
 
-theorem getBulkLoop_np : ∀ (vars : List VarBind) (it : GetIter) (acc : List (Option (Bytes × PyScalar))),
+theorem getBulkLoop_np : ∀ (vars : List VarBind) (it : GetIter) (acc : List (Option (Bytes × Bytes × PyScalar))),
     ∀ out, (getBulkLoop vars it acc).1 = .error out → out.isPanic = false
   | [], _, _ => by intro out h; simp [getBulkLoop] at h
   | var :: more, it, acc => by
